@@ -13,7 +13,7 @@ Variable F : key -> N -> list value -> list N -> N -> N.
 Variable rank : key -> nat.
 Variable ord : key -> list rkind.
 Hypothesis Hrank : wf_rank rules rank.
-Hypothesis Hdisc : forall k, r_disc (rules k) = [].
+Hypothesis Hwfd : wf_disc rules.
 Hypothesis Hord : forall k, In RReq (ord k).
 Notation cvK := (cvK rules env F rank).
 Notation concl := (concl rules F).
@@ -61,6 +61,8 @@ Proof.
     + intros k. rewrite RI. apply (b_nc _ _ _ HC).
     + intros k. unfold idle. now rewrite HK.
     + intros k H. now apply Hcu.
+    + intros k H. left. now rewrite (in_progress_of_kind su su' k (HK k)).
+    + intros y (r & Hu' & H1' & H2'). left. exists r. split; [now apply HU|auto].
     + intros k. left. split; auto. intros H. now apply Hcu.
   - apply (BS_kinds rules env F rank None None su su' HS); auto.
     + intros k H. now apply Hcu.
@@ -130,6 +132,8 @@ Proof.
     + intros k'. rewrite RI. destruct (N.eqb k' k); [cbn|]; apply (b_nc _ _ _ HC).
     + intros k'. unfold idle. rewrite HK. destruct (N.eqb k' k) eqn:E; auto. apply N.eqb_eq in E. subst k'. rewrite Hk. intros _. split; discriminate.
     + intros k' H. now apply Hcu.
+    + intros k' H. left. now rewrite Hip.
+    + intros y (r & Hu' & H1' & H2'). left. exists r. split; [now apply HU|auto].
     + intros k'. left. split; auto. intros H. now apply Hcu.
   - apply (BS_kinds rules env F rank None None su s' HS); auto.
     + intros k' H. now apply Hcu.
@@ -137,8 +141,8 @@ Proof.
     + intros k'. rewrite HK. destruct (N.eqb k' k) eqn:E.
       * apply N.eqb_eq in E. subst k'. intros ->. right. destruct Hkd as [H|(_ & Hall)]; [discriminate|].
         destruct (b_scanning _ _ _ _ _ _ HS k Hk) as (B1 & B2 & B3).
-        assert (Hrow : rowok su k) by (apply (b_rows _ _ _ HC); auto; unfold idle; rewrite Hk; split; discriminate).
-        destruct (row_clean rules env F rank Hrank Hdisc su k (b_cur _ _ _ _ _ _ HT) Hrow B2 Hall) as (v & Hv & Hcv & Hco).
+        assert (Hrow : rowok su k) by (apply (b_rows _ _ _ HC); auto; [unfold idle; rewrite Hk; split; discriminate|intros [Hc' _]; congruence]).
+        destruct (row_clean rules env F rank Hrank Hwfd su k (b_cur _ _ _ _ _ _ HT) Hrow B2 Hall) as (v & Hv & Hcv & Hco).
         split; [|split; [|split]].
         -- exists v. split; [now rewrite Hst|]. split; auto. apply (concl_same rules F su s' k v (Hdp k)); auto.
         -- intros d. rewrite Hdp. intros Hd. apply Hcu. now apply Hall.
@@ -188,7 +192,7 @@ Proof.
   assert (Hok1 : Forall (sreq_ok (touch s inp)) [rq1]).
   { constructor; [|constructor]. apply (Inv_head_ok rules (cx_set_fs c0 [rq1]) (touch s inp) rq1 [] eq_refl HI1). }
   assert (Hpe1 : pending_for (unpop [] [rq1] (touch s inp)) inp) by (left; exists rq1; split; auto; now left).
-  destruct (BInv_scan_rule rules env F rank Hrank Hdisc root _ [] [rq1] (touch s inp) inp HI1 HB1 Hok1 Hpe1) as (b1 & s1 & E1 & HB2 & Hl1). rewrite E1.
+  destruct (BInv_scan_rule rules env F rank Hrank Hwfd root _ [] [rq1] (touch s inp) inp HI1 HB1 Hok1 Hpe1) as (b1 & s1 & E1 & HB2 & Hl1). rewrite E1.
   destruct (scan_rule_post rules env _ _ _ _ _ E1 HI1) as (HI2 & KS & Hf1 & Ht1).
   assert (Hok2 : Forall (sreq_ok s1) [rq1]).
   { constructor; [|constructor]. apply (Inv_head_ok rules (cx_set_fs c0 [rq1]) s1 rq1 [] eq_refl HI2). }
